@@ -274,6 +274,16 @@ func (e *Engine) Unsubscribe(pid *PID) {
 	e.Send(e.eventStream, eventUnsub{pid: pid})
 }
 
+// canDeliver reports whether a message for the given PID would currently be
+// handed to a process or to the remote, rather than end up as a dead letter
+// or remote-missing event.
+func (e *Engine) canDeliver(pid *PID) bool {
+	if e.isLocalMessage(pid) {
+		return e.Registry.get(pid) != nil
+	}
+	return e.remote != nil
+}
+
 func (e *Engine) isLocalMessage(pid *PID) bool {
 	if pid == nil {
 		return false
